@@ -237,7 +237,7 @@ func optimalOnce(c OptCase, o *Obs, m align.SubstitutionMatrix, rm ref.Matrix, w
 		}
 	}
 	// A sequence aligned with itself, the very same slice passed as both arguments.
-	if !c.SameSlice && len(c.A) > 0 {
+	if !c.SameSlice && len(c.A) > 0 && !c.Light {
 		self := c
 		self.B, self.SameSlice, self.Mutate, self.haveRefilled = c.A, true, nil, false
 		if err := optimalOnce(self, &Obs{}, m, rm, wantNonZeroOpen); err != nil {
@@ -351,6 +351,12 @@ func exhaustiveC09(thorough bool, emit func(OptCase) bool) {
 func exhaustiveOpt(thorough bool, opens []int, emit func(OptCase) bool) {
 	wrap := func(c AlignCase) bool { return emit(OptCase{AlignCase: c}) }
 	if !realAlignCases(opens[:1], []int{1023, 1100}, wrap) || !realAlignCases(opens[1:], nil, wrap) {
+		return
+	}
+	if !megaAlignCases(opens[:1], !thorough, wrap) {
+		return
+	}
+	if opens[0] == 0 && !levLikeCases(wrap) {
 		return
 	}
 	// {a,b,c}: all pairs of sequences of length <= 3 (thorough 4) x fixed matrices over {a,b,c}.
